@@ -84,6 +84,9 @@ class DefaultDeploymentManager(DeploymentManager):
                     break
             else:
                 await self.events_map[deployment_name].wait()
+                # If the deployment has been replaced in the meantime, wait for the new one
+                if not self.events_map[deployment_name].is_set():
+                    continue
                 if deployment_name not in self.deployments_map:
                     raise WorkflowExecutionException(
                         f"FAILED deployment of {deployment_name}"
